@@ -619,6 +619,8 @@ class Interp:
             return out
         if isinstance(it, _Gen):
             return it.items
+        if isinstance(it, Obj) and it.fields.get("__namedtuple__"):
+            return [it.fields[k] for k in it.fields["__dataclass_fields__"]]
         if type(it).__name__ in ("list_iterator", "tuple_iterator", "generator", "dict_keyiterator", "set_iterator"):
             return list(it)
         if isinstance(it, Obj):
@@ -853,6 +855,8 @@ class Interp:
                 return ("builtin", mod.imports[n.id][1])
             if mod is not None and n.id in mod.imports and mod.imports[n.id] in (("functools", "partial"), ("typing", "cast")):
                 return ("builtin", mod.imports[n.id][1])
+            if mod is not None and n.id in mod.imports and mod.imports[n.id] == ("types", "MappingProxyType"):
+                return ("builtin", "dict")  # a read-only view: same lookups as the dict it wraps
             if mod is not None and n.id in mod.imports and mod.imports[n.id][0] in ("operator", "contextlib", "functools") and mod.imports[n.id][1] is None:
                 return ("pymodule", mod.imports[n.id][0])
             if mod is not None and n.id in mod.imports and mod.imports[n.id] == ("logging", None):
@@ -1011,6 +1015,11 @@ class Interp:
                     raise Raised("TypeError", str(ex))
             if isinstance(o, Opaque):
                 return Opaque("item")
+            if isinstance(o, Obj) and o.fields.get("__namedtuple__"):
+                try:
+                    return tuple(o.fields[k] for k in o.fields["__dataclass_fields__"])[self.eval(n.slice, env, func, depth)]
+                except IndexError:
+                    raise Raised("IndexError")
             raise Uninterpretable(f"subscript on {type(o).__name__}")
         if isinstance(n, (ast.ListComp, ast.GeneratorExp, ast.SetComp)):
             out = []
@@ -1258,6 +1267,10 @@ class Interp:
     def apply(self, f, args, kwargs, func, depth, node=None):
         if isinstance(f, tuple) and f and f[0] == "bound":
             _, m, selfv = f
+            if isinstance(selfv, ClassTok) and m.cls is not None and not m.is_static and not m.is_classmethod \
+                    and m.name != "__new__" and args and isinstance(args[0], (Obj, EnumVal)):
+                # Class.method(instance, ...): the function fetched from the class is unbound, its first argument is self
+                return self.call_func(m, list(args[1:]), kwargs, args[0], depth + 1)
             return self.call_func(m, args, kwargs, selfv, depth + 1)
         if isinstance(f, tuple) and f and f[0] == "closure":
             _, m, cenv = f
@@ -1385,7 +1398,8 @@ class Interp:
                 o = Obj(f.name)
             if init is not None:
                 self.call_func(init, args, kwargs, o, depth + 1)
-            elif any("dataclass" in d for k in self.repo.mro(c) for d in k.decorators):
+            elif any("dataclass" in d for k in self.repo.mro(c) for d in k.decorators) or \
+                    any(b.split(".")[-1] == "NamedTuple" for k in self.repo.mro(c) for b in k.bases):
                 fields = []
                 for k in reversed(self.repo.mro(c)):
                     for nm in k.order:
@@ -1414,6 +1428,13 @@ class Interp:
                             vals[nm] = self.eval(d, {}, Func("<cls>", ast.parse("def f(): pass").body[0], owner.module), depth)
                     o.fields[nm] = vals[nm]
                 o.fields["__dataclass_fields__"] = tuple(fields)
+                if any(b.split(".")[-1] == "NamedTuple" for k in self.repo.mro(c) for b in k.bases):
+                    o.fields["__namedtuple__"] = True  # a tuple: iterable, indexable, unpackable in field order
+            elif args or kwargs:
+                # a class of the repository without __init__ that is neither a dataclass nor a NamedTuple, called with
+                # arguments: the evaluator does not know how it stores them - no verdict rather than a half-built object
+                if not any(b.split(".")[-1] in BUILTIN_EXC or b.endswith(("Error", "Exception")) for k in self.repo.mro(c) for b in k.bases):
+                    raise Uninterpretable(f"construction of {f.name} with arguments but no modelled __init__")
             return o
         if isinstance(f, tuple) and f and f[0] == "builtin":
             return self.builtin(f[1], args, kwargs, func, depth)
